@@ -549,6 +549,10 @@ class Exec:
                 if not isinstance(key, StrV):
                     raise Unsupported(f'symbolic key in constant table@{line}')
                 return BoolVal(key.v in cv.v)
+            if isinstance(cv, MgrV) and cv.cls == 'dd.bdd.BDD':
+                # `u in bdd` is BDD.__contains__ (proved: abs(u) is a stored node)
+                self.calls.append('dd.bdd.BDD.__contains__')
+                return p.mgrs[cv.key].dom[absz(zint(key, self, p))]
         c = self.ev_container(container, p)
         return self.has(c, key, p, line)
 
@@ -692,6 +696,8 @@ class Exec:
     def ev_Attribute(self, e, p):
         if isinstance(e.value, ast.Name) and e.value.id == 'sys' and e.attr == 'maxsize' and 'sys' not in p.env:
             return IntV(IntVal(2 ** 63 - 1))
+        if isinstance(e.value, ast.Name) and e.value.id == 'logging' and e.attr in ('DEBUG', 'INFO', 'WARNING', 'ERROR') and 'logging' not in p.env:
+            return IntV(IntVal({'DEBUG': 10, 'INFO': 20, 'WARNING': 30, 'ERROR': 40}[e.attr]))
         mv = self.mgr_of_expr(e.value, p)
         if mv is not None:
             S = p.mgrs[mv.key]
@@ -706,6 +712,12 @@ class Exec:
                 return BoolV(S.ctx)
             if a in ('vars', '_level_to_var', '_succ', '_ref', '_pred'):
                 return FieldV(mv.key, a)
+            if a == 'roots':
+                # plain attribute holding references (set by loaders); modelled as an arbitrary finite set of integers
+                key = '%roots:' + mv.key
+                if key not in p.env:
+                    p.env[key] = SetV(fresh('roots_has', ArraySort(I, B)))
+                return p.env[key]
             if a == 'true':
                 return IntV(IntVal(1))
             if a == 'false':
@@ -912,6 +924,8 @@ class Exec:
                 return r
         # logging / warnings: no-ops (DESIGN section 3)
         if isinstance(f, ast.Attribute) and isinstance(f.value, ast.Name) and f.value.id in ('logger', 'log', 'warnings', 'logging'):
+            if f.attr == 'getEffectiveLevel':
+                return IntV(fresh('loglevel'))      # whatever the application configured
             return NONE()
         qual, recv = self.resolve(f, p, e.lineno)
         args = [self.ev(a, p) for a in e.args if not isinstance(a, ast.Starred)]
@@ -1158,16 +1172,17 @@ class Exec:
         exactly its elements; `idx` is the witness of "every element occurs". The set must not change during the loop
         (Python raises RuntimeError otherwise): the loop body is checked not to assign the iterated set."""
         from z3 import ForAll, Function, Int, MultiPattern
-        arr, n = fresh('enum', ArraySort(I, I)), fresh('enum_n')
-        idx = Function(f'enum_idx!{next(M._cnt)}', I, I)
-        k1, k2, l1 = Int('k1!e'), Int('k2!e'), Int('l!e')
+        ks = v.has.sort().domain()
+        arr, n = fresh('enum', ArraySort(I, ks)), fresh('enum_n')
+        idx = Function(f'enum_idx!{next(M._cnt)}', ks, I)
+        k1, k2, l1 = Int('k1!e'), Int('k2!e'), Const('l!e' + str(ks), ks)
         has = v.has
         p.pc += [n >= 0,
                  ForAll([k1, k2], Implies(And(0 <= k1, k1 < k2, k2 < n), arr[k1] != arr[k2]), patterns=[MultiPattern(arr[k1], arr[k2])]),
                  ForAll([k1], Implies(And(0 <= k1, k1 < n), has[arr[k1]]), patterns=[arr[k1]]),
                  ForAll([l1], Implies(has[l1], And(0 <= idx(l1), idx(l1) < n, arr[idx(l1)] == l1)), patterns=[has[l1]])]
         self.assumed_builtins.add('iteration over a set: each element exactly once, in some order')
-        lst = ListV(arr, n)
+        lst = ListV(arr, n, 'name' if getattr(v, 'kkind', 'int') == 'name' else 'int')
         lst.idx = idx
         return lst
 
@@ -1491,6 +1506,8 @@ class Exec:
         if c.ret == 'optname':
             r, n = fresh('rn', M.Name), fresh('rnn', B)
             return NameV(r, n), (r, n)
+        if c.ret == 'opaque':
+            return ObjV('opaque'), None
         if c.ret == 'int':
             r = fresh('r')
             return IntV(r), r
@@ -2031,24 +2048,46 @@ class Exec:
                 if sv.check() == unsat:
                     return [p]
         k, spec = self.loop_spec(st)
-        if isinstance(it, ast.Call) and isinstance(it.func, ast.Name) and it.func.id == 'range' and len(it.args) == 2:
-            lo_, hi_ = [zint(self.ev(a, p), self, p) for a in it.args]
+        if isinstance(it, ast.Call) and isinstance(it.func, ast.Name) and it.func.id == 'range' and len(it.args) == 3:
+            # range(a, b, d) with d = +1 or -1 (obligation): the k-th element is a + k*d, for k below the distance
+            a_, b_, d_ = [zint(self.ev(x, p), self, p) for x in it.args]
+            self.oblige(p, f'range-step-is-plus-or-minus-one@{st.lineno}', Or(d_ == 1, d_ == -1), st.lineno)
+            dist = If(d_ > 0, b_ - a_, a_ - b_)
+            lo_, hi_ = IntVal(0), If(dist > 0, dist, IntVal(0))
+            elem = lambda iv: IntV(a_ + If(d_ > 0, iv, -iv))  # noqa
+        elif isinstance(it, ast.Call) and isinstance(it.func, ast.Name) and it.func.id == 'range' and len(it.args) in (1, 2):
+            bnds = [zint(self.ev(a, p), self, p) for a in it.args]
+            lo_, hi_ = (IntVal(0), bnds[0]) if len(bnds) == 1 else bnds
             elem = lambda iv: IntV(iv)  # noqa
         else:
             seq = self.ev(it, p)
-            if isinstance(seq, SetV) and seq.kkind == 'int' and isinstance(it, ast.Name):
+            if isinstance(seq, SetV) and seq.kkind == 'int' and isinstance(it, (ast.Name, ast.Attribute)):
+                itname = ast.unparse(it)
                 for n_ in ast.walk(ast.Module(body=st.body, type_ignores=[])):
-                    if isinstance(n_, ast.Name) and n_.id == it.id:
-                        raise Unsupported(f'loop body mentions the iterated set {it.id}@{st.lineno}')
+                    if isinstance(n_, (ast.Name, ast.Attribute)) and ast.unparse(n_) == itname:
+                        raise Unsupported(f'loop body mentions the iterated set {itname}@{st.lineno}')
                 seq = self.enumerate_set(seq, p)
-                p.env['%enum:' + it.id] = seq
+                p.env['%enum:' + itname] = seq
+            items_of = None
+            if isinstance(seq, ObjV) and seq.cls == 'items' and isinstance(it, ast.Call) and isinstance(it.func.value, ast.Name):
+                # `for k, v in d.items()`: the keys in some order, each once; the dict must not change in the body
+                items_of = seq.attrs['d']
+                dname = it.func.value.id
+                for n_ in ast.walk(ast.Module(body=st.body, type_ignores=[])):
+                    if isinstance(n_, ast.Name) and n_.id == dname and isinstance(n_.ctx, ast.Store):
+                        raise Unsupported(f'loop body assigns the iterated dict {dname}@{st.lineno}')
+                seq = self.enumerate_set(items_of, p)
+                p.env['%enum:' + dname] = seq
             if not isinstance(seq, ListV):
                 raise Unsupported(f'for over {ast.unparse(it)}@{st.lineno}')
             lo_, hi_ = IntVal(0), seq.n
             elem = (lambda iv: NameV(seq.arr[iv])) if seq.elem == 'name' else (lambda iv: IntV(seq.arr[iv]))
-        if not isinstance(st.target, ast.Name) or st.orelse:
+            if items_of is not None:
+                key_of = elem
+                elem = lambda iv: TupV([key_of(iv), self.dict_val(items_of, seq.arr[iv])])  # noqa
+        if st.orelse or not (isinstance(st.target, ast.Name) or (isinstance(st.target, ast.Tuple) and all(isinstance(x, ast.Name) for x in st.target.elts))):
             raise Unsupported(f'for target/else@{st.lineno}')
-        var = st.target.id
+        var = st.target.id if isinstance(st.target, ast.Name) else None
         entry_env = dict(p.env)
         ctx0 = Ctx(mgrs=p.mgrs, env0=entry_env, env=p.env, idx=lo_, lo=lo_, hi=hi_, uses=self.c.uses, ex=self, path=p, entry=self.entry_mgrs)
         for nm, g in spec['inv'](ctx0):
@@ -2068,14 +2107,18 @@ class Exec:
         ctxh = Ctx(mgrs=ph_.mgrs, env0=entry_env, env=ph_.env, idx=iv, lo=lo_, hi=hi_, uses=self.c.uses, ex=self, path=ph_, entry=self.entry_mgrs)
         inv_h = [g for _, g in spec['inv'](ctxh)]
         pb = ph_.fork(And(lo_ <= iv, iv < hi_, *inv_h))
-        pb.env[var] = elem(iv)
+        if var is not None:
+            pb.env[var] = elem(iv)
+        else:
+            self.assign(st.target, elem(iv), pb, st.lineno)
         for q in self.run_block(st.body, [pb]):
             if q.status in ('run', 'continue'):
                 ctxq = Ctx(mgrs=q.mgrs, env0=entry_env, env=q.env, idx=iv + 1, lo=lo_, hi=hi_, uses=self.c.uses, ex=self, path=q, entry=self.entry_mgrs)
                 for nm, g in spec['inv'](ctxq):
                     self.oblige(q, f'loop{k}-inv-preserved:{nm}@{st.lineno}', g, st.lineno)
             elif q.status == 'break':
-                raise Unsupported('break in for')
+                q.status = 'run'        # leaves the loop at once with the state it has (no invariant is claimed for this exit)
+                out.append(q)
             else:
                 out.append(q)
         # exit after all iterations (or none)
